@@ -1,0 +1,11 @@
+//go:build !verif
+
+package iavl
+
+// Verification seams (see verif_on.go). Without the `verif` build tag these are
+// empty, inlinable functions: the compiled code is the shipped code.
+
+func verifPruneGate(*sqlWriter, string) bool { return true }
+func verifPruneIdle(*sqlWriter, string)      {}
+func verifSaveOrder(*sqlWriter, string)      {}
+func verifSaveDone(*sqlWriter, string)       {}
